@@ -17,4 +17,7 @@ def run(rep, W, ctx):
     S.c10(rep, W)
     S.s_wmc(rep, W, only=[WD.tm("set_snapshot")])
     S.c03_nostate(rep, W)      # the id and the bytes of one upload cannot be mixed with another request's: no shared buffers / statics / thread-locals
+    from rules import wiring as WR
+    WR.c13_written(rep, W)     # the snapshot's version id / time / bytes are written by set_snapshot only, on both back ends
+    H.c14_tables(rep, W, modules=("get_snapshot",))      # id header and bytes of the same record reach the client
     H.handler_args(rep, W)     # the handler hands AddSnapshot the path id and the body accumulated from this very request
